@@ -20,7 +20,6 @@ import (
 	"context"
 	"crypto"
 	"crypto/rsa"
-	"crypto/tls"
 	"crypto/x509"
 	"fmt"
 	"net"
@@ -756,13 +755,10 @@ func (c *c) GetTLSSecretContent(secretName string) (*acme.TLSSecret, error) {
 	if !foundCrt {
 		return nil, fmt.Errorf("secret '%s' does not have '%s' key", secretName, api.TLSCertKey)
 	}
-	x509, err := c.sslCerts.checkValidCertPEM(pemCrt)
+	// a certificate that the controller refuses to use is not served by haproxy
+	x509, err := c.sslCerts.validateCrtAndKey(pemCrt, secret.Data[api.TLSPrivateKeyKey], secret.Data["ca.crt"])
 	if err != nil {
 		return nil, fmt.Errorf("error validating x509 certificate: %w", err)
-	}
-	// a certificate without its private key cannot be used by haproxy
-	if _, err := tls.X509KeyPair(pemCrt, secret.Data[api.TLSPrivateKeyKey]); err != nil {
-		return nil, fmt.Errorf("error validating x509 key pair: %w", err)
 	}
 	return &acme.TLSSecret{
 		Crt: x509,
